@@ -16,7 +16,10 @@ import WK.Model.C23
              an incomplete last frame is never reported and never consumed;
              the chunked feed dispatches the same frames (same hash), leaves exactly
              the incomplete tail, does not close; with `cuts=all` every split point
-             and the byte-by-byte delivery agree with the single-chunk delivery.
+             and the byte-by-byte delivery agree with the single-chunk delivery;
+             the REAL gateway (`gw=`/`gwall=`: core.Server.onData behind a fake
+             transport connection) dispatches the same frames, keeps exactly the
+             incomplete tail in its inbound buffer and does not close.
 -/
 open WK WK.C22 WK.C23
 
@@ -24,6 +27,10 @@ def joinFrames (fs : List Frame) : String := " ;; ".intercalate (fs.map showFram
 
 def feedSig (st : Inbound) : String :=
   s!"{st.out.length},{st.buf.length},{boolStr st.closed},{hashStr (joinFrames st.out)}"
+
+/-- the gateway's signature: bytes left are not observable once the session is closed -/
+def gwSig (st : Inbound) : String :=
+  s!"{st.out.length},{if st.closed then 0 else st.buf.length},{boolStr st.closed},{hashStr (joinFrames st.out)}"
 
 def canonCuts (raw : List Nat) (l : Nat) : List Nat :=
   let xs := (raw.map (· % (l + 1))).filter (fun c => 0 < c ∧ c < l)
@@ -43,22 +50,31 @@ def observe (sv : Nat) (cutsTok : String) (data : Bytes) : Option String :=
     | .ok fs c => if c > 0 ∧ c ≤ l then decide (adapterDecode sv (data.take c) = .ok fs c) else true
     | _ => true
   let single := feed sv [data]
-  let res : Option (String × Nat × Nat) :=
+  let res : Option (String × Nat × Nat × String × Nat × Nat) :=
     if cutsTok = "all" then
       let ref := feedSig single
       let agree2 := (List.range l).foldl (fun acc i =>
         if i = 0 then acc
         else if feedSig (feed sv [data.take i, data.drop i]) = ref then acc + 1 else acc) 0
       let agree1 := if feedSig (feed sv (bytesEach data)) = ref then 1 else 0
-      some (ref, agree2 + agree1, (l - 1) + 1)
+      -- the gateway is driven on the single chunk, a few split points and byte-by-byte
+      let gref := gwSig single
+      let stride := l / 8 + 1
+      let pts := (List.range l).filter (fun i => i > 0 ∧ i % stride = 0)
+      let gagree := pts.foldl (fun acc i =>
+        if gwSig (feed sv [data.take i, data.drop i]) = gref then acc + 1 else acc) 0
+      let gagree1 := if gwSig (feed sv (bytesEach data)) = gref then 1 else 0
+      some (ref, agree2 + agree1, (l - 1) + 1, gref, gagree + gagree1, pts.length + 1)
     else
       let raw : Option (List Nat) :=
         if cutsTok = "-" then some [] else (cutsTok.splitOn ",").mapM String.toNat?
-      raw.map fun r => (feedSig (feed sv (splitAt data (canonCuts r l))), 0, 0)
-  res.map fun (fsig, agree, tried) =>
+      raw.map fun r =>
+        let st := feed sv (splitAt data (canonCuts r l))
+        (feedSig st, 0, 0, gwSig st, 0, 0)
+  res.map fun (fsig, agree, tried, gsig, gagree, gtried) =>
     let panicked := whole == .panic
     if panicked then "panic" else
-    s!"len={l} whole={wk},{wc},{boolStr we} wh={hashStr (joinFrames wfs)} det=1 pfx={boolStr pfx} feed={fsig} all={agree}/{tried} :: {joinFrames wfs}"
+    s!"len={l} whole={wk},{wc},{boolStr we} wh={hashStr (joinFrames wfs)} det=1 pfx={boolStr pfx} feed={fsig} all={agree}/{tried} gw={gsig} gwall={gagree}/{gtried} :: {joinFrames wfs}"
 
 structure ImplOut where
   len : Nat
@@ -74,6 +90,12 @@ structure ImplOut where
   fh : Nat
   agree : Nat
   tried : Nat
+  gk : Nat
+  gleft : Nat
+  gclosed : Bool
+  gh : Nat
+  gagree : Nat
+  gtried : Nat
   frames : String
 
 def nats (s : String) (sep : String) : Option (List Nat) := (s.splitOn sep).mapM String.toNat?
@@ -83,15 +105,18 @@ def parseImpl (impl : String) : Option ImplOut :=
   | head :: tl =>
     let frames := " :: ".intercalate tl
     match fields head with
-    | [a, b, c, d, e, f, g] =>
+    | [a, b, c, d, e, f, g, gw, gwa] =>
       match (valOf a).toNat?, nats (valOf b) ",", (valOf c).toNat?, (valOf d).toNat?, (valOf e).toNat?,
-            nats (valOf f) ",", nats (valOf g) "/" with
-      | some len, some [wk, wc, we], some wh, some det, some pfx, some [fk, fl, fc, fh], some [ag, tr] =>
-        if a.startsWith "len=" ∧ b.startsWith "whole=" ∧ f.startsWith "feed=" then
+            nats (valOf f) ",", nats (valOf g) "/", nats (valOf gw) ",", nats (valOf gwa) "/" with
+      | some len, some [wk, wc, we], some wh, some det, some pfx, some [fk, fl, fc, fh], some [ag, tr],
+        some [gk, gl, gc, gh], some [gag, gtr] =>
+        if a.startsWith "len=" ∧ b.startsWith "whole=" ∧ f.startsWith "feed=" ∧ gw.startsWith "gw=" ∧
+           gwa.startsWith "gwall=" then
           some { len, wk, wc, werr := we = 1, wh, det := det = 1, pfx := pfx = 1, fk, fleft := fl,
-                 fclosed := fc = 1, fh, agree := ag, tried := tr, frames := if tl.isEmpty then "" else frames }
+                 fclosed := fc = 1, fh, agree := ag, tried := tr, gk, gleft := gl, gclosed := gc = 1, gh,
+                 gagree := gag, gtried := gtr, frames := if tl.isEmpty then "" else frames }
         else none
-      | _, _, _, _, _, _, _ => none
+      | _, _, _, _, _, _, _, _, _ => none
     | _ => none
   | [] => none
 
@@ -104,6 +129,7 @@ def judgeAny (o : ImplOut) : String :=
   else if o.wk > 0 ∧ o.wc < o.wk then "viol:frames-without-progress"
   else if o.wc = 0 ∧ o.wk ≠ 0 then "viol:frames-without-progress"
   else if o.fleft > o.len then "viol:feed-leftover-exceeds-input"
+  else if o.gleft > o.len then "viol:gateway-leftover-exceeds-input"
   else "ok"
 
 /-- the stream property for a sequence of in-limit frames; `sizes` = encoded sizes -/
@@ -122,6 +148,11 @@ def judgeSeq (v : Nat) (fs : List Frame) (drop : Nat) (isAll : Bool) (o : ImplOu
   else if o.fk ≠ complete.length ∨ o.fh ≠ o.wh then "viol:split-changes-frames"
   else if o.fleft ≠ tail then "viol:split-leftover-mismatch"
   else if isAll ∧ o.agree ≠ o.tried then "viol:split-point-changes-result"
+  -- the same, observed on the real gateway (core.Server.onData)
+  else if o.gclosed then "viol:gateway-closed-on-valid-stream"
+  else if o.gk ≠ complete.length ∨ o.gh ≠ o.wh then "viol:gateway-split-changes-frames"
+  else if o.gleft ≠ tail then "viol:gateway-leftover-mismatch"
+  else if isAll ∧ o.gagree ≠ o.gtried then "viol:gateway-split-point-changes-result"
   else "ok"
 
 def splitFrames (toks : List String) : List (List String) :=
